@@ -238,7 +238,15 @@ def unit_reuse(a):
     return pc.unit_reuse(a, st_ast(), proj_c09, "C09 projection of the pickles", 69)
 
 
+def unit_modes(a):
+    from .textdocs_impl import proj_c09
+    return pc.unit_modes(proj_c09, "C09 projection of the pickles")
+
+
 def replay(case, stats):
+    if case["sub"] == "modes":
+        from .textdocs_impl import proj_c09
+        return pc.check_modes(case, stats, proj_c09, "C09 projection of the pickles")
     if case["sub"] == "reuse":
         from .textdocs_impl import proj_c09
         return pc.check_reuse(case, stats, proj_c09, "C09 projection of the pickles")
@@ -254,6 +262,7 @@ def run(ctx):
     ctx.units("alphabet-exhaustive", unit_alpha, [{"shard": i, "nshards": ns, "sample": 0, "seed": ctx.seed} for i in range(ns)], procs=ns)
     ctx.units("two-columns-exhaustive", unit_two_columns, [{"shard": i, "nshards": ns} for i in range(ns)], procs=ns)
     ctx.units("unicode-hypothesis", unit_hyp, [{"n": 1050 if q else 8000, "seed": ctx.seed, "shard": i} for i in range(8 if q else 16)], procs=16)
+    ctx.units("interpreter-modes", unit_modes, [{}])
     ctx.units("compiler-reuse", unit_reuse, [{"n": 450 if q else 4000, "seed": ctx.seed, "shard": i} for i in range(8 if q else 16)], procs=16)
     from . import textdocs
     textdocs.run_text(ctx, "C09")
